@@ -304,7 +304,7 @@ class TypedNode(Node):
                     )
             else:
                 pass
-            if data_id and data_id != source_node._data_id:
+            if data_id is not None and data_id != source_node._data_id:
                 raise UniqueConstraintError(f"data_id conflict: {source_node}")
 
             if data_id is None:
